@@ -383,6 +383,9 @@ class SparselyBin(Factory, Container):
         np.subtract(q, self.origin, q)
         np.divide(q, self.binWidth, q)
         np.floor(q, q)
+        # saturate like SparselyBin.bin(): the cast to int64 overflows for |index| >= 2**63
+        np.bitwise_or(neginfs, q <= LONG_MINUSINF, neginfs)
+        np.bitwise_or(posinfs, q >= LONG_PLUSINF, posinfs)
         q = np.array(q, dtype=np.int64)
         q[neginfs] = LONG_MINUSINF
         q[posinfs] = LONG_PLUSINF
